@@ -181,7 +181,145 @@ func (c *Ctx) FactsAt(f *FuncInfo, n ast.Node, throughClosures bool) []Fact {
 		}
 		child = parent
 	}
-	return facts
+	return expandNamedBooleans(f, facts)
+}
+
+// expandNamedBooleans adds, for every fact that is a local boolean variable with exactly one
+// (1:1) definition, the facts of that definition — `wildcardKey := a && b; if wildcardKey {…}` is
+// read like `if a && b {…}`. The original fact is kept. (Lexical approximation, like the rest of
+// FactsAt: the operands are assumed unchanged between the definition and the test.)
+func expandNamedBooleans(f *FuncInfo, facts []Fact) []Fact {
+	info := f.Info()
+	out := facts
+	seen := map[types.Object]bool{}
+	for i := 0; i < len(out) && i < 256; i++ {
+		ft := out[i]
+		if ft.Kind != "cond" {
+			continue
+		}
+		id, ok := ast.Unparen(ft.Cond).(*ast.Ident)
+		if !ok {
+			// named booleans below the top of the condition (a || b, !(a && b), …).
+			if !substituted[ft.Cond] {
+				if e, changed := substNamedBools(f, ft.Cond, 0); changed {
+					substituted[e] = true
+					var extra []Fact
+					splitFact(e, ft.Pos, &extra)
+					for _, x := range extra {
+						substituted[x.Cond] = true
+					}
+					out = append(out, extra...)
+				}
+			}
+			continue
+		}
+		obj, ok := info.ObjectOf(id).(*types.Var)
+		if !ok || seen[obj] {
+			continue
+		}
+		if b, ok := obj.Type().Underlying().(*types.Basic); !ok || b.Kind() != types.Bool {
+			continue
+		}
+		seen[obj] = true
+		if d := oneToOneDef(f, obj); d != nil {
+			splitFact(d, ft.Pos, &out)
+		}
+	}
+	return out
+}
+
+var substituted = map[ast.Expr]bool{}
+
+// substNamedBools rebuilds the boolean skeleton (&&, ||, !, parentheses) of e with every local
+// boolean variable that has a single one-to-one definition replaced by (definition). Leaves are
+// the original nodes, so type information stays available for them.
+func substNamedBools(f *FuncInfo, e ast.Expr, depth int) (ast.Expr, bool) {
+	info := f.Info()
+	if depth > 4 {
+		return e, false
+	}
+	switch x := e.(type) {
+	case *ast.ParenExpr:
+		if y, ch := substNamedBools(f, x.X, depth); ch {
+			return &ast.ParenExpr{Lparen: x.Lparen, X: y, Rparen: x.Rparen}, true
+		}
+	case *ast.UnaryExpr:
+		if x.Op == token.NOT {
+			if y, ch := substNamedBools(f, x.X, depth); ch {
+				return &ast.UnaryExpr{OpPos: x.OpPos, Op: x.Op, X: y}, true
+			}
+		}
+	case *ast.BinaryExpr:
+		if x.Op == token.LAND || x.Op == token.LOR {
+			a, ca := substNamedBools(f, x.X, depth)
+			b, cb := substNamedBools(f, x.Y, depth)
+			if ca || cb {
+				return &ast.BinaryExpr{X: a, OpPos: x.OpPos, Op: x.Op, Y: b}, true
+			}
+		}
+	case *ast.Ident:
+		obj, ok := info.ObjectOf(x).(*types.Var)
+		if !ok {
+			return e, false
+		}
+		if b, ok := obj.Type().Underlying().(*types.Basic); !ok || b.Kind() != types.Bool {
+			return e, false
+		}
+		if d := oneToOneDef(f, obj); d != nil {
+			if _, isLit := ast.Unparen(d).(*ast.Ident); isLit && (types.ExprString(d) == "true" || types.ExprString(d) == "false") {
+				return e, false // a flag initialised to a constant and (not) reassigned: keep the name
+			}
+			y, _ := substNamedBools(f, d, depth+1)
+			return &ast.ParenExpr{Lparen: x.Pos(), X: y, Rparen: x.End()}, true
+		}
+	}
+	return e, false
+}
+
+// oneToOneDef: the right-hand side of the only assignment to obj in f, provided that assignment
+// pairs left and right sides one to one (no comma-ok, no multi-value call) and obj is not a parameter.
+func oneToOneDef(f *FuncInfo, obj types.Object) ast.Expr {
+	info := f.Info()
+	var def ast.Expr
+	n := 0
+	ast.Inspect(f.Decl.Body, func(x ast.Node) bool {
+		switch s := x.(type) {
+		case *ast.AssignStmt:
+			for i, l := range s.Lhs {
+				if lid, ok := l.(*ast.Ident); ok && info.ObjectOf(lid) == obj {
+					n++
+					if len(s.Lhs) == len(s.Rhs) {
+						def = s.Rhs[i]
+					} else {
+						n++ // not one to one
+					}
+				}
+			}
+		case *ast.ValueSpec:
+			for i, nm := range s.Names {
+				if info.ObjectOf(nm) == obj {
+					n++
+					if i < len(s.Values) && len(s.Values) == len(s.Names) {
+						def = s.Values[i]
+					} else {
+						n++
+					}
+				}
+			}
+		case *ast.IncDecStmt:
+		case *ast.UnaryExpr:
+			if s.Op == token.AND {
+				if lid, ok := ast.Unparen(s.X).(*ast.Ident); ok && info.ObjectOf(lid) == obj {
+					n += 2 // address taken
+				}
+			}
+		}
+		return true
+	})
+	if n == 1 {
+		return def
+	}
+	return nil
 }
 
 // HasFact reports whether some "cond" fact with the given polarity satisfies pred.
